@@ -316,6 +316,9 @@ class Interp:
             if v is None:
                 if o.get("ty") == "()":
                     return UNIT
+                bs = F.bytes_const(o)
+                if bs is not None:
+                    return Const(bs)
                 return TOP
             if o.get("ty") == "bool":
                 return Const(bool(v))
